@@ -1,7 +1,7 @@
 """C11 — redeemers point at the items they unlock; scripts and datums are supplied; the automatic
 validity interval contains the current slot.  (Also hosts the Plutus scenario generator and the Coq
 literal printer shared with C12.)"""
-import hashlib, json
+import hashlib, json, os
 from lib import common as C
 
 PID = 'C11'
@@ -33,7 +33,9 @@ TRUSTED = [
 ]
 ASSUMPTIONS = [
     'distinct UTxOs spent by one transaction have distinct (tx id, index) (ledger fact; coin selection returns UTxOs not yet selected: C09)',
-    'policy ids are 28 bytes (ScriptHash enforces it); each Redeemer object is attached at most once',
+    'policy ids are 28 bytes (ScriptHash enforces it); each Redeemer object is attached at most once; each minting policy '
+    'and each reward account gets at most one add_minting_script / add_withdrawal_script call (two redeemers for one '
+    'ledger purpose cannot both be shipped: the redeemer map keeps the last)',
     'reward-account clause stated where bytewise order and the ledger\'s credential order agree (all accounts are script accounts)',
     'certificates are only appended after a certificate script was attached; reference_inputs is only filled by add_* calls',
     'automatic validity: last_block_slot >= 0 and offsets with start <= 0 <= ttl (the defaults -1000 / +10000 qualify)',
@@ -89,6 +91,25 @@ def rand_pd(rng, depth=2):
         n = rng.randint(0, 2)
         return e_map([(e_int(i), rand_pd(rng, depth - 1)) for i in range(n)])
     return e_constr(rng.choice([0, 1, 2, 6, 7, 12]), [rand_pd(rng, depth - 1) for _ in range(rng.randint(0, 3))])
+
+
+# datums that are FALSY as Python values when written the way a user writes them: 0, b'', {}, IndefiniteList([])
+FALSY = [e_int(0), e_bytes(b''), e_map([]), b'\x9f\xff']
+
+
+def rand_datum(rng):
+    """(CBOR bytes, form): form 'prim' = the driver hands the datum over as the plain Python value (int, bytes, dict,
+    IndefiniteList / list, RawPlutusData around a constructor), 'raw' = wrapped in RawCBOR (always a truthy object)"""
+    b = rng.choice(FALSY) if rng.random() < 0.25 else rand_pd(rng)
+    return b, datum_form(rng, b)
+
+
+def datum_form(rng, b):
+    """DOMAIN RESTRICTION (explicit): a top-level definite-length array would be a plain Python list, which is not a
+    member of pycardano's Datum union (typeguard rejects it as TransactionOutput.datum); such datums stay RawCBOR."""
+    if b[0] >> 5 == 4 and b[0] != 0x9f:
+        return 'raw'
+    return rng.choice(['prim', 'prim', 'raw'])
 
 
 def rdm_data(rng, rid):
@@ -154,6 +175,7 @@ def gen_scenario(rng, plain=False):
         return len(S['utxos']) - 1
 
     def new_script(lang=None):
+        lang_free = lang is None
         lang = rng.choice([1, 2, 2, 3, 3, 0]) if lang is None else lang
         if lang == 0:
             if rng.random() < 0.7:
@@ -163,8 +185,21 @@ def gen_scenario(rng, plain=False):
                 b = head(4, 2) + e_int(rng.choice([1, 2])) + head(4, len(subs)) + b''.join(subs)
             spec = dict(lang=0, hex=b.hex(), raw=False)
         else:
-            spec = dict(lang=lang, hex=rng.randbytes(rng.choice([5, 12, 30, 64, 65, 90])).hex(),
-                        raw=(lang == 1 and rng.random() < 0.15))
+            # "twins": the same program bytes under another language (a different script: other tag, other hash; but
+            # equal as Python objects, the Plutus script classes being bytes subclasses), under the same language
+            # (the same script a second time, possibly as plain bytes), or equal to the CBOR of a native script
+            plut = [x for x in S['scripts'] if x['lang'] != 0]
+            nat = [x for x in S['scripts'] if x['lang'] == 0]
+            if plut and rng.random() < 0.35:
+                base = rng.choice(plut)
+                if lang_free and rng.random() < 0.8:
+                    lang = rng.choice([l for l in (1, 2, 3) if l != base['lang']])
+                hx = base['hex']
+            elif nat and rng.random() < 0.05:
+                hx = rng.choice(nat)['hex']
+            else:
+                hx = rng.randbytes(rng.choice([5, 12, 30, 64, 65, 90])).hex()
+            spec = dict(lang=lang, hex=hx, raw=(lang == 1 and rng.random() < 0.15))
         S['scripts'].append(spec)
         return len(S['scripts']) - 1
 
@@ -213,7 +248,7 @@ def gen_scenario(rng, plain=False):
         dmode = rng.choice(['hash+', 'hash+', 'hash', 'inline', 'none', 'none+'])
         if bad(0.03):
             dmode = rng.choice(['inline+', 'hashwrong'])
-        dcbor = rand_pd(rng)
+        dcbor, dform = rand_datum(rng)
         datum, dsup = None, None
         if dmode.startswith('hash'):
             datum = ['hash', blake(dcbor, 32).hex()]
@@ -222,7 +257,7 @@ def gen_scenario(rng, plain=False):
             if dmode == 'hashwrong':
                 dsup = (dcbor + b'\x00').hex() if False else e_list([dcbor]).hex()
         elif dmode.startswith('inline'):
-            datum = ['inline', dcbor.hex()]
+            datum = ['inline', dcbor.hex(), dform]
             if dmode == 'inline+':
                 dsup = dcbor.hex()
         elif dmode == 'none+':
@@ -254,10 +289,10 @@ def gen_scenario(rng, plain=False):
         r = None
         if (plutus and not bad(0.05)) or (not plutus and bad(0.05)):
             r = new_rdm(0)
-        free.append(['sinput', uid, src, dsup, r])
+        free.append(['sinput', uid, src, dsup, r, dform])
         if rng.random() < 0.06:                                 # the same UTxO registered a second time
             r2 = new_rdm(0) if r is not None else None
-            free.append(['sinput', uid, src, dsup, r2])
+            free.append(['sinput', uid, src, dsup, r2, dform])
     # --- key-locked inputs
     change = rng.randbytes(28)
     for _ in range(rng.choice([0, 1, 1, 2, 3])):
@@ -270,12 +305,17 @@ def gen_scenario(rng, plain=False):
     for _ in range(rng.randint(2, 4)):
         new_utxo(False, change, rng.choice([6000000, 25000000, 80000000]))
     # --- mint
-    pols = []
+    # DOMAIN RESTRICTION (explicit): a policy / reward account gets at most one add_*_script call.  Two calls for the
+    # same policy hand over two redeemers for ONE ledger purpose (mint, rank of the policy): the redeemer map keeps the
+    # last one only, the list form ships two entries with the same pointer — a misuse the builder does not reject and
+    # that no transaction can express; it is outside "0..3 minting policies / 0..2 script withdrawals".
+    pols, pol_seen, acct_seen = [], set(), set()
     for _ in range(rng.choice([0, 0, 1, 1, 2, 3])):
         sid = pick_script()
         plutus = S['scripts'][sid]['lang'] != 0
-        if shash(sid) in [p for p, _ in pols]:
+        if shash(sid) in pol_seen:
             continue
+        pol_seen.add(shash(sid))
         r = new_rdm(1) if (plutus and not bad(0.05)) or (not plutus and bad(0.05)) else None
         free.append(['mint', src_for(sid), r])
         if not bad(0.03):
@@ -290,8 +330,9 @@ def gen_scenario(rng, plain=False):
         sid = pick_script()
         plutus = S['scripts'][sid]['lang'] != 0
         a = bytes([0xF0 | S['net']]) + shash(sid)
-        if a in accts:
+        if a in acct_seen:
             continue
+        acct_seen.add(a)
         r = new_rdm(3) if (plutus and not bad(0.05)) or (not plutus and bad(0.05)) else None
         free.append(['wdrl', src_for(sid), r])
         if not bad(0.03):
@@ -316,7 +357,8 @@ def gen_scenario(rng, plain=False):
             certseq.append(['addcert', dict(cred_script=False, cred=rng.randbytes(28).hex(), pool=rng.randbytes(28).hex())])
     # --- extra datum in the witness set
     if rng.random() < 0.35:
-        free.append(['outdatum', rand_pd(rng).hex()])
+        od = rand_datum(rng)
+        free.append(['outdatum', od[0].hex(), od[1]])
     S['native'] = [pick_script(0) for _ in range(rng.choice([0, 0, 0, 0, 1, 2]))]
     # --- random interleaving; certificate ops keep their order
     rng.shuffle(free)
@@ -558,13 +600,42 @@ def region(S, R, clauses):
     return 'c11-' + '+'.join(clauses)
 
 
+def twin_ref_and_direct(S):
+    """some script supplied through a reference UTxO shares its bytes, not its language, with a script handed over directly"""
+    ref, direct = [], []
+    for o in S['ops']:
+        if o[0] not in ('sinput', 'mint', 'wdrl', 'cert'):
+            continue
+        src = o[2] if o[0] == 'sinput' else o[1]
+        if src[0] == 'utxo' and S['utxos'][src[1]]['script'] is not None:
+            ref.append(S['scripts'][S['utxos'][src[1]]['script']])
+        elif src[0] == 'script':
+            direct.append(S['scripts'][src[1]])
+    return any(a['hex'] == b['hex'] and a['lang'] != b['lang'] for a in ref for b in direct)
+
+
+def falsy_supplied(S):
+    """a datum that is a falsy Python object is handed to add_script_input for a hash-locked input"""
+    fh = {f.hex() for f in FALSY}
+    return any(o[0] == 'sinput' and o[3] in fh and len(o) > 5 and o[5] == 'prim'
+               and (S['utxos'][o[1]]['datum'] or [None])[0] == 'hash' for o in S['ops'])
+
+
 def n_redeemers(R):
     return len(R.get('rl') or [])
 
 
+def corpus_cases():
+    """directed regression scenarios (corpus/C11.json): the same bytes under two languages with one side on a reference
+    UTxO for each kind of call, falsy datum objects for hash-locked inputs and for outputs"""
+    p = os.path.join(C.VERIF, 'corpus', 'C11.json')
+    return json.load(open(p)) if os.path.exists(p) else []
+
+
 def correspond(ctx, n=None):
+    corpus = corpus_cases() if n is None else []
     n = n or ctx.n(300, 12000)
-    cases = [gen_scenario(ctx.rng) for _ in range(n)]
+    cases = corpus + [gen_scenario(ctx.rng) for _ in range(n - len(corpus))]
     results = C.run_impl('plutusbuild_driver', {'cases': cases})
     mism, ofail, undec, errs = evaluate(cases, results)
     if errs:
@@ -583,7 +654,9 @@ def correspond(ctx, n=None):
     if len(built) < 0.5 * len(cases):
         raise RuntimeError(f'only {len(built)} of {len(cases)} scenarios were built: generator or driver problem; {outside_msgs}')
     nontriv = {C.canon_hash(cases[i]) for i in built if n_redeemers(results[i]) >= 1}
-    shape = dict(spend_ge2=0, mint_ge2=0, reward=0, cert=0, ref_script=0, coin_selected=0, redeemer_map=0, evaluated=0)
+    shape = dict(spend_ge2=0, mint_ge2=0, reward=0, cert=0, ref_script=0, coin_selected=0, redeemer_map=0, evaluated=0,
+                 same_bytes_other_language=0, same_bytes_ref_and_direct=0, prim_datums=0, falsy_datum_objects=0,
+                 falsy_datum_for_hash_locked_input=0)
     for i in built:
         rl = results[i]['rl']
         shape['spend_ge2'] += sum(1 for r in rl if r[1] == 0) >= 2
@@ -596,6 +669,12 @@ def correspond(ctx, n=None):
         shape['coin_selected'] += results[i]['n_inputs'] > len({o[1] for o in cases[i]['ops'] if o[0] in ('input', 'sinput')})
         shape['redeemer_map'] += bool(cases[i]['build']['use_map'])
         shape['evaluated'] += results[i]['evals'] > 0
+        sc = cases[i]['scripts']
+        shape['same_bytes_other_language'] += any(a['hex'] == b['hex'] and a['lang'] != b['lang'] for a in sc for b in sc)
+        shape['same_bytes_ref_and_direct'] += twin_ref_and_direct(cases[i])
+        shape['prim_datums'] += results[i]['prim'][0] > 0
+        shape['falsy_datum_objects'] += results[i]['prim'][1] > 0
+        shape['falsy_datum_for_hash_locked_input'] += falsy_supplied(cases[i])
 
     def pack(i, reg):
         return {'input': cases[i], 'impl': {k: v for k, v in results[i].items() if k != 'tb'}, 'region': reg}
@@ -608,10 +687,12 @@ def correspond(ctx, n=None):
         evaluations=len(cases), distinct_nontrivial=len(nontriv),
         rule='random Plutus builder scenarios (0-4 script inputs with script in witness / on a reference UTxO / on the spent '
              'UTxO / found through the context, datum by hash / inline / none, 0-3 minting policies, 0-2 script withdrawals '
-             '(+ key accounts), certificate scripts, V1/V2/V3/native/raw-bytes scripts, key-locked inputs and coin-selected '
+             '(+ key accounts), certificate scripts, V1/V2/V3/native/raw-bytes scripts, the same program bytes under several '
+             'languages (one through a reference UTxO, one handed over), datums handed over as RawCBOR or as plain Python '
+             'values incl. the falsy ones 0 / b"" / {} / empty lists, key-locked inputs and coin-selected '
              'inputs with tx ids before/between/after, shared tx ids with indices 2/10/100, random call order, redeemer map/list, '
              'units supplied/evaluated with buffers, deliberate misuse); non-trivial = transaction built with >= 1 redeemer; distinct by hash',
-        samples=[cases[0]],
+        samples=[cases[len(corpus)]], corpus_cases=len(corpus),
         stage_histogram=stages, outside_slice=outside_msgs, op_histogram=hist, built=len(built), built_shapes=shape,
         reward_pointer_undecided_mixed_accounts=len(undec),
         known_region_hits=known_hits,
